@@ -91,6 +91,58 @@ def tie_harness(name, s, w, f, r, neg, win_pos, unwind):
     return "\n".join(L), text
 
 
+def exact_round(text, f):
+    """nearest multiple of 2^-f to the decimal literal, ties to even (exact rational arithmetic)"""
+    neg = text.startswith("-")
+    t = text.lstrip("+-")
+    ip, _, fp = t.partition(".")
+    num = int((ip or "0") + fp)
+    den = 10 ** len(fp)
+    x = Fraction(num, den) * (1 << f)
+    q = x.numerator // x.denominator
+    rem = x - q
+    if rem > Fraction(1, 2) or (rem == Fraction(1, 2) and q % 2 == 1):
+        q += 1
+    return -q if neg else q
+
+
+def concrete_harness(name, s, w, f, literals, unwind):
+    """concrete literals (no symbolic input: the solver's symbolic execution degenerates to running the real parser):
+    used for 32..128-bit types, where symbolic digits do not finish"""
+    t, inner = c.ty(s, w, f), c.inner(s, w)
+    lo, hi = (-(1 << (w - 1)), (1 << (w - 1)) - 1) if s == "I" else (0, (1 << w) - 1)
+    L = ["#[kani::proof]", "#[kani::unwind(%d)]" % unwind, "pub fn %s() {" % name, "    type L = %s;" % t]
+    for text in literals:
+        q = exact_round(text, f)
+        ovf = not (lo <= q <= hi)
+        wv = q & ((1 << w) - 1)
+        if s == "I" and wv >> (w - 1):
+            wv -= 1 << w
+        lit = ("%s::MIN" % inner) if (s == "I" and wv == lo) else (("%d%s" % (wv, inner)) if wv >= 0 else "(%d%s)" % (wv, inner))
+        L.append("    match L::overflowing_from_str(\"%s\") { Ok((v, o)) => assert!(v.to_bits() == %s && o == %s, \"concrete literal parses to the nearest value (ties even) with the exact flag\"), Err(_) => assert!(false, \"well-formed literal parses\") }" % (text, lit, "true" if ovf else "false"))
+    L.append("    kani::cover!(true, \"W:reached\");")
+    L.append("}")
+    return "\n".join(L)
+
+
+def carry_literals(s, w, f, rnd):
+    """fractions that round up into the next integer (odd and even integer part), just below that, and the exact tie"""
+    import math
+    d = int(math.ceil((f + 1) * math.log10(2))) + 1
+    out = []
+    intbits = w - f - (1 if s == "I" else 0)
+    ks = [1, 2] if intbits >= 2 else ([1] if intbits >= 1 else [0])
+    for k in ks:
+        out.append("%d.%s" % (k, "9" * d))                 # rounds up to k + 1
+        out.append("%d.%s" % (k, "9" * max(1, d - 3)))     # stays below k + 1
+        ip, fd = tie_string(((k + 1) << f) - 1, f) if f >= 1 else (str(k), "5")
+        out.append("%s.%s" % (ip, fd))                     # exact tie below k + 1
+        out.append("%s.%s1" % (ip, fd))                    # a hair above the tie
+    if s == "I":
+        out.append("-" + out[0])
+    return out
+
+
 def plan(tier, seed, kf_ids):
     rnd = random.Random(seed + 808)
     q = tier == "quick"
@@ -161,6 +213,16 @@ def plan(tier, seed, kf_ids):
                         jobs.append(Job(nm, code, "literals around the rounding tie between %d and %d ulps of %s: the tie's exact decimal "
                                         "expansion with 3 symbolic digits at fraction position %d (below / equal / above the tie): nearest, ties to even" % (r, r + 1, c.alias(s, w, f), wp),
                                         timeout=1800, inst=c.alias(s, w, f), bounds="1000 literals of %d characters" % len(text)))
+    # ---- wide types: concrete literals at the carry into the integer part (128-bit decimal kernel, 64-bit, 32-bit)
+    wide = [("U", 128, 96), ("I", 128, 126), ("U", 64, 40), ("I", 32, 20)] if q else \
+           [("U", 128, 96), ("I", 128, 126), ("U", 128, 65), ("I", 128, 100), ("U", 128, 128), ("U", 64, 40), ("I", 64, 62), ("U", 64, 20), ("I", 32, 20), ("U", 32, 31)]
+    for (s, w, f) in wide:
+        lits = carry_literals(s, w, f, rnd)
+        nm = "c08_carry_%s" % c.tag(s, w, f)
+        jobs.append(Job(nm, concrete_harness(nm, s, w, f, lits, max(len(x) for x in lits) + 8),
+                        "concrete literals at the carry into the integer part of %s (k.99..9 rounding up / staying below, the exact tie below k+1 "
+                        "and a hair above it, odd and even k): nearest value, ties to even, exact flag; expected values by exact rational "
+                        "arithmetic in the driver" % c.alias(s, w, f), timeout=2400, inst=c.alias(s, w, f), bounds="%d concrete literals" % len(lits)))
     return {
         "feature": "c08",
         "jobs": jobs,
@@ -171,8 +233,8 @@ def plan(tier, seed, kf_ids):
                   "the listed shapes (up to 3 integer + 5 fraction decimal digits; hex/octal/binary shapes) with exact value oracle; "
                   "16-bit: 6- and 7-fraction-digit decimals; all widths: tie-anchored literals (exact expansion of a rounding tie with "
                   "a 3-digit symbolic window, its proper prefix) at boundary and seeded values",
-        "outside": ["strings longer than the shapes listed; arbitrary long decimals of 32/64/128-bit types that are not anchored "
-                    "at a tie", "non-ASCII input", "the error kind (only Ok/Err and, for from_str, Err exactly on overflow)"],
+        "outside": ["strings longer than the shapes listed; long decimals of 32/64/128-bit types other than the concrete carry/tie "
+                    "literals (symbolic digits do not finish on 128-bit words)", "non-ASCII input", "the error kind (only Ok/Err and, for from_str, Err exactly on overflow)"],
         "assumptions": ["strings are built with from_utf8_unchecked from bytes < 128"],
         "stubs": [],
     }
